@@ -1,7 +1,7 @@
 SPECIFICATION Spec
 CONSTANTS
   MaxLen = 3
-  Srcs = {"task_val", "sched_val"}
+  Srcs = {"task_val", "sched_val", "lcontract_val"}
   Atts = {"inline", "e1", "inh"}
   Args = {"V", "E", "R"}
   Behs = {"val"}
